@@ -162,6 +162,63 @@ fn run_constructed(random: &[u8], version: u16, sid: Option<&[u8]>, ids: &[u16],
     r.unwrap_or_else(|p| vec![format!("panic: {}", p)])
 }
 
+/// `get_version()` getters that this check does not call by name (added later, e.g. on the DTLS or TLS 1.3 hello structs),
+/// discovered from the source: the statement names get_version() - it returns the structure's own version, for all 65536
+/// values. The structures are built as literals of the layouts the pinned tree has; other types are listed, not judged.
+fn check_discovered_getters(sink: &mut Sink) -> Vec<String> {
+    let known = [("TlsClientHelloContents", "get_version"), ("TlsServerHelloContents", "get_version")];
+    let lit = |ty: &str| -> Option<&'static str> {
+        Some(match ty {
+            "DTLSClientHello" => "DTLSClientHello { version: TlsVersion(x as u16), random: &R, session_id: None, cookie: &R[..3], ciphers: vec![TlsCipherSuiteID(0xc02f)], comp: vec![TlsCompressionID(0)], ext: None }",
+            "DTLSHelloVerifyRequest" => "DTLSHelloVerifyRequest { server_version: TlsVersion(x as u16), cookie: &R[..3] }",
+            "TlsServerHelloV13Draft18Contents" => "TlsServerHelloV13Draft18Contents { version: TlsVersion(x as u16), random: &R, cipher: TlsCipherSuiteID(0x1301), ext: None }",
+            "TlsHelloRetryRequestContents" => "TlsHelloRetryRequestContents { version: TlsVersion(x as u16), cipher: TlsCipherSuiteID(0x1301), ext: None }",
+            "TlsServerHelloContents" | "TlsClientHelloContents" => return None,
+            _ => return None,
+        })
+    };
+    let mut unjudged = Vec::new();
+    let mut body = String::from("{\n    static R: [u8; 32] = [7u8; 32];\n");
+    let mut any = false;
+    for (ty, m, ret) in vchecks::genprobe::inherent_getters() {
+        if m != "get_version" || ret != "TlsVersion" || known.contains(&(ty.as_str(), m.as_str())) {
+            continue;
+        }
+        match lit(&ty) {
+            Some(l) => {
+                any = true;
+                body.push_str(&format!("    {{ let mut bad = 0u32; let mut first = 0u32; for x in 0..=65535u32 {{ let v = {l}; if v.get_version().0 != x as u16 {{ if bad == 0 {{ first = x; }} bad += 1; }} }} println!(\"GETTER {ty} get_version {{}} {{}}\", bad, first); }}\n"));
+            }
+            None => unjudged.push(format!("{}::{}", ty, m)),
+        }
+    }
+    body.push_str("}\n");
+    if !any {
+        return unjudged;
+    }
+    match vchecks::genprobe::run_generated("c15get", &body) {
+        Some(out) => {
+            for l in out.lines() {
+                let f: Vec<&str> = l.split_whitespace().collect();
+                if f.len() == 5 && f[0] == "GETTER" {
+                    sink.evals += 65536;
+                    let (bad, first) = (f[3].parse::<u64>().unwrap_or(0), f[4].parse::<u64>().unwrap_or(0));
+                    sink.count("discovered get_version getters", if bad == 0 { "identity" } else { "WRONG" });
+                    if bad != 0 {
+                        sink.violation(
+                            format!("getter {}::{}", f[1], f[2]),
+                            format!("{}::{}() does not return the structure's own version for {} of the 65536 versions (first: {:#06x})", f[1], f[2], bad, first),
+                            json!({"kind":"discovered-getter","type":f[1]}),
+                        );
+                    }
+                }
+            }
+        }
+        None => unjudged.push("(probe for the discovered getters does not build)".into()),
+    }
+    unjudged
+}
+
 fn main() {
     let run = Run::from_args("C15", "exploration");
     let listed = listed_ids();
@@ -173,6 +230,11 @@ fn main() {
         let mut outs = Vec::new();
         for _ in 0..2 {
             let m = match c["kind"].as_str() {
+                Some("discovered-getter") => {
+                    let mut s = Sink::new();
+                    check_discovered_getters(&mut s);
+                    s.viol.iter().map(|v| v.what.clone()).collect()
+                }
                 Some("parsed") => run_parsed(&unhex(c["input"].as_str().unwrap()), c["dtls"].as_bool().unwrap(), &listed).unwrap_or_default(),
                 Some("constructed") => {
                     let random = unhex(c["random"].as_str().unwrap());
@@ -385,6 +447,10 @@ fn main() {
         "every ClientHello of the TLS and DTLS catalogues (parsed), constructed hellos with random slices of every length 0..=40 x 5 versions, session ids of 0..=48 / 255 / 256 / 300 bytes and extension blocks up to 70000 bytes (beyond the wire limits: constructors must not edit their arguments), a 40000-entry cipher list, extension blocks that are well-formed extension lists (every known extension alone and in pairs, incl. supported_versions) under 4 versions, leading random words over all single-bit patterns, boundaries and full 2^16 sweeps of the upper and of the lower half-word, cipher lists covering all 65536 ids, ServerHello::new / get_version / get_cipher for all 65536 ids x 13 versions (and the id lists in ClientHellos of 13 versions); each trait accessor and helper compared with the structure's own fields (slices by pointer), rand_time / rand_bytes with the big-endian split, cipher_suites / get_ciphers / get_cipher with from_id and with the registry file. Non-trivial: every value"));
     // the same check against the crate built with all cargo features (std, serialize, unstable)
     let mut sink = sink;
+    if !is_sub() {
+        let unjudged = check_discovered_getters(&mut sink);
+        cov.insert("discovered_getters_not_judged".into(), json!(unjudged));
+    }
     run.all_features_variant(&mut sink);
     let code = run.finish(&sink, cov, vec!["rand_time / rand_bytes are only constrained for randoms of at least 4 bytes (shorter constructed values: no panic)".into()]);
     std::process::exit(code);
